@@ -62,8 +62,11 @@ impl InferShapes for Slice {
                     && let Some(SymExpr::Value(step)) = step
                     && let SymExpr::Value(size) = dims[axis]
                 {
+                    // `i32::MAX` means "to the end" only when stepping
+                    // forwards. With a negative step it is clamped to the
+                    // last index like any other out-of-range value.
                     let end = match *end {
-                        i32::MAX => None,
+                        i32::MAX if *step > 0 => None,
                         end => Some(end as isize),
                     };
 
